@@ -818,6 +818,7 @@ fn process_item(repo: &str, req: &Value, cache: &mut BTreeMap<String, (String, s
                 return Err("internal: span offsets do not index the file text".into());
             }
             if let Some(newname) = req["rename"].as_str() {
+                fn_name = newname.to_string();
                 cx.rep(s, e, newname);
                 cx.count("RN(rename fn)");
             }
